@@ -20,12 +20,13 @@ PROPS = {
     ),
     "C03": dict(
         mc=["MC_Compress"],
-        gen=[dict(module="Gen_Packet", cfg="Gen_Packet.cfg", out="packet_cases.ndjson",
-                  simulate=dict(quick="num=1500", thorough="num=25000", depth=80))],
-        topic="compress",
-        min_counters={"distinct_rr_types": 35},
-        rules=["NoPanic", "BuildOk", "CompDecodes", "CompShorter", "CompRoundTrip"],
-        shards=14,
+        runs=[dict(topic="compress", gen=[dict(module="Gen_Packet", cfg="Gen_Packet.cfg", out="packet_cases.ndjson",
+                  simulate=dict(quick="num=1500", thorough="num=25000", depth=80))], shards=14,
+                   min_counters={"distinct_rr_types": 35}),
+              # the writer-based entry point at offsets 0 / 2 / 7 / beyond 64 KiB: what it writes is what the vector holds
+              dict(topic="sinks", gen=[dict(module="Gen_Packet", cfg="Gen_Packet.cfg", out="packet_cases.ndjson",
+                  simulate=dict(quick="num=300", thorough="num=25000", depth=80))], shards=14)],
+        rules=["NoPanic", "BuildOk", "CompDecodes", "CompShorter", "CompRoundTrip", "SinkSame"],
     ),
     "C07": dict(
         mc=["MC_Compress"],
@@ -423,19 +424,22 @@ TEXT = {
 
 # ---- additions to the check descriptions made after the seeded rounds 3 and 4 (appended to TEXT[..]["text"])
 EXTRA = {
-    "C01": "The perturbations of every base message (all record types, framing variants, EDNS layouts) are every truncation, +-1 on every byte, the boundary values 0x00 / 0x80 / 0xFF on every byte and 0xFFFF / 0xFFFC / 0x8000 on every 16-bit position.",
-    "C02": "Histories may start from a parsed message; the packet each history builds is serialised and parsed back too. Packets whose records come from the crate's convenience constructors (every way of making a TXT, typed SVCB setters, owned copies) are round-tripped as well.",
-    "C04": "Packets that have no wire form of their own (BADVERS or a received extended rcode without an OPT record) and a received two-OPT message are serialised as well: whatever is written must be a well-framed message whose counts equal the entries written (WellFramed). Besides the builder machine's packets: packets whose records come from every convenience constructor (all ways of making a TXT incl. TryFrom<&str> at the 254/255/256/509/1000-byte boundaries and TryFrom<HashMap>, the typed SVCB setters, owned copies), each followed by further records so that a wrong length shows in the framing of what follows.",
-    "C05": "Every case starts with a question whose QTYPE (specific types and IXFR/AXFR/MAILB/MAILA/ANY), QCLASS and unicast bit vary; TTLs 0x80000000 / 0xFFFFFFFF / 0x7FFFFFFF, the cache-flush bit and class CH are spread over the records. The clause 'never read from the middle of that record' is also observed directly: a hook at the top of Question::parse / ResourceRecord::parse records the offset at which the parser starts on each entry, and TLC requires those offsets to be a prefix of the entry offsets found by an independent envelope walker (EnvelopeStarts: names, fixed parts, RDLENGTH skips only), whatever the outcome of the parse (EntryAligned). Cases include RDLENGTH 0 for every type (with and without content following) and OPT at every position among 0..3 other additional records.",
-    "C06": "The framing cases (records whose RDLENGTH is larger or smaller than their typed content) are parsed too and the fields that FOLLOW a name in a record's schema must equal the reference decoding (AfterName). Names inside RDATA: for every name-bearing record type TLC prints the reference encoding and a third-party compressed one (every RDATA name a bare pointer into the question); a hook at the top of Name::parse records where the parser starts on each name and TLC requires those offsets to be, in order, the positions of the message's names as located by the schema-aware site walker of Compress.tla (NameSiteAligned: parsing of the enclosing element resumes right after the in-place bytes).",
+    "C16": "Pairs of collection-valued RDATA (NSEC windows, TXT strings, SvcParams) holding the same members in a different order: whatever equality says about them, equal values hash equally (EqHash only).",
+    "C12": "Every observer is applied to the parsed (borrowed) packet and to the packet rebuilt from owned parts; every record is matched against every special QTYPE / QCLASS and a few ordinary ones, whatever the packet itself asks.",
+    "C03": "The writer-based entry point is judged too (sinks topic: growable cursors at offsets 0 / 2 / 7 and beyond 64 KiB, fixed slices of every capacity, writers that take 1 or 3 bytes per call): what write_compressed_to writes is what build_bytes_vec_compressed holds (SinkSame), which CompDecodes / CompRoundTrip judge.",
+    "C01": "The perturbations of every base message (all record types, framing variants, EDNS layouts) are every truncation, +-1 on every byte, the boundary values 0x00 / 0x80 / 0xFF on every byte and 0xFFFF / 0xFFFC / 0x8000 on every 16-bit position. Many-record families: 500 (thorough also 5400) empty records of every type, and the last record of every base repeated to 6 KB (30 KB): per-record allocation must not grow with the message.",
+    "C02": "Histories may start from a parsed message; the packet each history builds is serialised and parsed back too. Packets whose records come from the crate's convenience constructors (every way of making a TXT, typed SVCB setters, owned copies) are round-tripped as well. Also after refused operations (TXT::add_string > 255 bytes, SVCB::set_param > 65535 bytes: the object is used further) and packets made of the smallest entries only (1-4 root questions, 0-3 empty root records). A call of a history that the crate refuses is recorded as a state that differs from the model's.",
+    "C04": "Packets that have no wire form of their own (BADVERS or a received extended rcode without an OPT record) and a received two-OPT message are serialised as well: whatever is written must be a well-framed message whose counts equal the entries written (WellFramed). Besides the builder machine's packets: packets whose records come from every convenience constructor (all ways of making a TXT incl. TryFrom<&str> at the 254/255/256/509/1000-byte boundaries and TryFrom<HashMap>, the typed SVCB setters, owned copies), each followed by further records so that a wrong length shows in the framing of what follows. One-entry packets whose own names share a suffix (PTR / NS / MX / SRV / SOA / MINFO, a lone question) go through the whole sink grid.",
+    "C05": "Every case starts with a question whose QTYPE (specific types and IXFR/AXFR/MAILB/MAILA/ANY), QCLASS and unicast bit vary; TTLs 0x80000000 / 0xFFFFFFFF / 0x7FFFFFFF, the cache-flush bit and class CH are spread over the records. The clause 'never read from the middle of that record' is also observed directly: a hook at the top of Question::parse / ResourceRecord::parse records the offset at which the parser starts on each entry, and TLC requires those offsets to be a prefix of the entry offsets found by an independent envelope walker (EnvelopeStarts: names, fixed parts, RDLENGTH skips only), whatever the outcome of the parse (EntryAligned). Cases include RDLENGTH 0 for every type (with and without content following) and OPT at every position among 0..3 other additional records. Mode question: 8 x 8 pairs of QTYPE / QCLASS codes (known, unassigned, field boundaries). Mode reentry: the second record's owner is a pointer to a length octet whose label ends on the pointer's own first byte, so that decoding re-enters the bytes behind the pointer; the name is legal, the record must still be read from right behind the pointer (the RDATA behind the name's end looks like a record, so a misplaced parse succeeds and shows).",
+    "C06": "The framing cases (records whose RDLENGTH is larger or smaller than their typed content) are parsed too and the fields that FOLLOW a name in a record's schema must equal the reference decoding (AfterName). Names inside RDATA: for every name-bearing record type TLC prints the reference encoding and a third-party compressed one (every RDATA name a bare pointer into the question); a hook at the top of Name::parse records where the parser starts on each name and TLC requires those offsets to be, in order, the positions of the message's names as located by the schema-aware site walker of Compress.tla (NameSiteAligned: parsing of the enclosing element resumes right after the in-place bytes). A message with an invalid name (cycle, pointer outside, reserved label type, over-long, cut short) must be rejected as a whole (NameMustErr on the whole-message parse); AfterName also covers the IPSECKEY gateway name; a re-entry family (a pointer whose target's label ends on the pointer's own first byte).",
     "C10": "Also: for every name-bearing type a third-party pointer-compressed encoding (the parsed result must equal the reference decoding), three- and four-window NSEC orderings among the rule-breaking encodings, and random sequences of the typed SvcParam setters of SVCB/HTTPS (set_port, set_alpn, set_no_default_alpn, set_ipv4hint, set_ipv6hint, set_mandatory, set_param): iter_params, get_param and the built record must show the RFC 9460 section 7 values computed in the specification (SvcbSetters).",
-    "C13": "Sampled on real sockets (RespRun): the real SimpleMdnsResponder (sync and tokio) serving seven records answers twelve queries (QU / non-QU, one and two questions, ANY / SRV / TXT / A / AAAA, classes IN / CH / ANY, a name nobody owns) sent over the loopback multicast group; every reply seen at a plain socket (unicast) or at a socket joined to the group (multicast) must satisfy the reply bounds, carry the query id and QR, and have gone to the querier iff some question asked for unicast; a query that must be answered must be seen answered in at least one of the attempts (E2EReplied). In addition to the random histories, a bounded-exhaustive matrix: every record of the catalogue (incl. MB/MG/MR/MX/MINFO) registered alone x every supported QTYPE and IXFR/AXFR/MAILB/MAILA/ANY x QCLASS {IN, CH, ANY}, asked at the record's own name and at its parent.",
-    "C14": "The discovery-listener pipeline runs without a notification channel, with a live one (drained by the application) and with one whose receiver was dropped, sync and tokio; the usability probe after every datagram does what get_known_services() does (from_records over the cached records); hostile labels cover every alignment of character boundaries (0..3 ASCII bytes followed by invalid, 2-byte and 4-byte units). Sampled on real sockets (NetRun): sync and tokio responder and discovery services answer a probe before the hostile burst and must still answer after it (a fresh control responder tells a dead loop from a dead network); the one-shot resolver keeps resolving (an answered name, an unanswered name, address-and-port of an unanswered service) during the whole burst, which includes responses with id 0 owned by the names it asks for with empty, truncated and mistyped RDATA; any panic on a library thread is a violation.",
-    "C15": "Protocol level: Discovery.tla (one action per implementation step of ServiceDiscovery, sync and tokio flavours; MC_Discovery, MC_DiscoveryAsync, MC_DiscoveryLossy; MC_DiscoveryLive checks the temporal properties EventuallyKnown / EventuallyForgotten under fairness) model-checks NeverPartial, NothingForeign, Prompt and Stable. Sampled on real sockets (E2E): 2-3 real ServiceDiscovery peers (sync, then tokio) advertise random instances of a unique service on the loopback multicast group; every sample of every peer's get_known_services() must consist of exactly the instances other running peers advertise (DiscoverExact, every observation), and within two seconds every running peer must list every other one and keep doing so after a third one left, in at least one of the attempts (E2EDiscovered).",
+    "C13": "Sampled on real sockets (RespRun): the real SimpleMdnsResponder (sync and tokio) serving seven records answers twelve queries (QU / non-QU, one and two questions, ANY / SRV / TXT / A / AAAA, classes IN / CH / ANY, a name nobody owns) sent over the loopback multicast group; every reply seen at a plain socket (unicast) or at a socket joined to the group (multicast) must satisfy the reply bounds, carry the query id and QR, and have gone to the querier iff some question asked for unicast; a query that must be answered must be seen answered in at least one of the attempts (E2EReplied). In addition to the random histories, a bounded-exhaustive matrix: every record of the catalogue (incl. MB/MG/MR/MX/MINFO) registered alone x every supported QTYPE and IXFR/AXFR/MAILB/MAILA/ANY x QCLASS {IN, CH, ANY}, asked at the record's own name and at its parent. Twins: the same name and RDATA registered in classes IN and CH (either order) with the same question matrix; opaque records (NULL, an unnamed type) in the catalogue.",
+    "C14": "The discovery-listener pipeline runs without a notification channel, with a live one (drained by the application) and with one whose receiver was dropped, sync and tokio; the usability probe after every datagram does what get_known_services() does (from_records over the cached records); hostile labels cover every alignment of character boundaries (0..3 ASCII bytes followed by invalid, 2-byte and 4-byte units). Sampled on real sockets (NetRun): sync and tokio responder and discovery services answer a probe before the hostile burst and must still answer after it (a fresh control responder tells a dead loop from a dead network); the one-shot resolver keeps resolving (an answered name, an unanswered name, address-and-port of an unanswered service) during the whole burst, which includes responses with id 0 owned by the names it asks for with empty, truncated and mistyped RDATA; any panic on a library thread is a violation. Names of 253..256 wire bytes made of 63- / 7- / 1-byte labels in queries and responses. NetRun records every reply to its probes and sends four queries (a question repeated 200 / 900 times) that make the four real services reply with 14-16 KB: whatever comes back on the wire must parse (ReplyParses).",
+    "C15": "Protocol level: Discovery.tla (one action per implementation step of ServiceDiscovery, sync and tokio flavours; MC_Discovery, MC_DiscoveryAsync, MC_DiscoveryLossy; MC_DiscoveryLive checks the temporal properties EventuallyKnown / EventuallyForgotten under fairness) model-checks NeverPartial, NothingForeign, Prompt and Stable. Sampled on real sockets (E2E): 2-3 real ServiceDiscovery peers (sync, then tokio) advertise random instances of a unique service on the loopback multicast group; every sample of every peer's get_known_services() must consist of exactly the instances other running peers advertise (DiscoverExact, every observation), and within two seconds every running peer must list every other one and keep doing so after a third one left, in at least one of the attempts (E2EDiscovered). Ports include 0 and 65535. E2EForeign: a peer of another implementation played on a plain socket announces instances to a real ServiceDiscovery (sync, tokio); an announcement that repeats a question section is listed like one that does not.",
     "C09": "The EDNS data and the 12-bit response code must also survive the compressing serialiser: the reference decoder applied to build_bytes_vec_compressed of every OPT-carrying packet of the builder machine finds the same OPT data and rcode (CompOpt), whatever else the message holds (e.g. a non-empty authority section). The builder histories of Gen_Packet (starting from constructors and from received messages with and without OPT, then SetRcode / SetOpt / ClearOpt / flags) are replayed here too: the state after every call matches the builder model (ApiStep) and what is finally written parses back to the packet the history describes (RoundTrip) -- the response code is split from what the packet holds now, not from what was received.",
     "C17": "The alphabet includes space and newline (whitespace at the ends of a text must not be trimmed away).",
-    "C18": "Opaque records are tried with five payloads (arbitrary bytes and bytes shaped like a character-string, a name, an address); a message whose record of an unknown type the library rejects is itself reported.",
-    "C20": "Every other received record of a history crosses the wire in a compressed response and enters the store through the discovery listener's own ingest function (owned copies) instead of the store API. Protocol level: Discovery.tla model-checks that an ingested goodbye removes the peer from view one second later (GoodbyeHonoured) and refutes the keep-the-later-expiry design. Sampled on real sockets (E2E): 2-3 real sync ServiceDiscovery peers find each other, one calls remove_service_from_discovery, and it must be gone from the others' get_known_services() three seconds later in at least one of the attempts (E2EGoodbye).",
+    "C18": "Opaque records are tried with five payloads (arbitrary bytes and bytes shaped like a character-string, a name, an address); a message whose record of an unknown type the library rejects is itself reported. WireCodes: all 65536 values of the QTYPE, QCLASS (under the unicast-response bit) and CLASS (under the cache-flush bit) field on the wire through Packet::parse: a supported code is shown as itself, an unsupported one rejects the message, never aliased.",
+    "C20": "Every other received record of a history crosses the wire in a compressed response and enters the store through the discovery listener's own ingest function (owned copies) instead of the store API. Protocol level: Discovery.tla model-checks that an ingested goodbye removes the peer from view one second later (GoodbyeHonoured) and refutes the keep-the-later-expiry design. Sampled on real sockets (E2E): 2-3 real sync ServiceDiscovery peers find each other, one calls remove_service_from_discovery, and it must be gone from the others' get_known_services() three seconds later in at least one of the attempts (E2EGoodbye). E2EForeign: a peer of another implementation played on a plain socket announces an instance (TTL 4500) and withdraws it with TTL 0 or the cache-flush bit, in responses that also carry a question section; once listed it must be gone 2.3 s after the goodbye in at least one of four attempts.",
 }
 for _k, _v in EXTRA.items():
     TEXT[_k]["text"] = TEXT[_k]["text"] + " " + _v
